@@ -234,7 +234,11 @@ func (op *OrphanPool) ProcessOrphans(hash []byte, b *BlockChain) error {
 			// 尝试将此孤儿节点添加到主链
 			_, _, err := b.maybeAcceptBlock(orphan.broadcast, &types.BlockDetail{Block: orphan.block}, orphan.pid, orphan.sequence)
 			if err != nil {
-				return err
+				// A rejected orphan must affect neither the block being processed (it has been
+				// accepted) nor the other orphans waiting for it: log the error and go on
+				// instead of leaving the remaining orphans in the pool.
+				chainlog.Error("ProcessOrphans:maybeAcceptBlock", "height", orphan.block.GetHeight(), "hash", common.ToHex(orphanHash), "err", err)
+				continue
 			}
 			processHashes = append(processHashes, string(orphanHash))
 		}
